@@ -135,3 +135,42 @@ Theorem xguard_nonvacuous :
   (let s := fold_left sxstep xnonvac (sinit 0%N) in
    sq_var_q s 0%N 0%N false = QVal 3 /\ sq_var_q s 0%N 1%N true = QVal 5 /\ sq_var_q s 2%N 1%N true = QVal 8).
 Proof. vm_compute. repeat split. Qed.
+
+(* ---- the other resolvers of a function name (fboundp, symbol-function, function, fdefinition,
+   function-lambda-expression; repaired by C13-14): their masks are a function of the call answers, so the
+   refinement carries over to them on every guarded prefix ---- *)
+Theorem frefinement_prefix_PK ops :
+  let g := xguard_prefix PK NM (sinit 0%N) ops in
+  firstn g (map fobserve (xrun PK VN FN (init 0%N) ops)) = firstn g (map fobserve (sxrun PK VN FN (sinit 0%N) ops)).
+Proof. cbv zeta. rewrite !firstn_map. rewrite xrefinement_prefix_PK. reflexivity. Qed.
+(* what a mask list is: for every current package c and function name n, the mask of n, then of p:n and p::n
+   for every package p -- the resolution q_fun of the call (FindFunc) *)
+Lemma fobserve_observe s :
+  fobserve (observe PK VN FN s) =
+  flat_map (fun c => flat_map (fun n => res_mask (q_fun s c c n false) ::
+     flat_map (fun p => [res_mask (q_fun s c p n false); res_mask (q_fun s c p n true)]) PK) FN) PK.
+Proof. reflexivity. Qed.
+Lemma fobserve_sobserve s :
+  fobserve (sobserve PK VN FN s) =
+  flat_map (fun c => flat_map (fun n => res_mask (sq_fun s c c n false) ::
+     flat_map (fun p => [res_mask (sq_fun s c p n false); res_mask (sq_fun s c p n true)]) PK) FN) PK.
+Proof. reflexivity. Qed.
+Lemma Neqb_refl' : forall a : N, N.eqb a a = true. Proof. exact N.eqb_refl. Qed.
+Theorem fselfcheck_unreachable c : fcheck_case c <> 3%N.
+Proof.
+  unfold fcheck_case. cbv zeta.
+  destruct (negb (N.eqb (xcheck_case (fst c)) 0)); [apply xselfcheck_unreachable|].
+  rewrite frefinement_prefix_PK.
+  rewrite (list_eqb_refl _ (list_eqb_refl _ Neqb_refl')).
+  destruct (list_eqb _ _ (snd c)); [discriminate|]. destruct (list_eqb _ _ _); discriminate.
+Qed.
+(* the code before C13-14 refuted: after (defun vf () 1) in package 0 the specification resolves 0::vf
+   (mask 31: every resolver must find it) while fboundp / symbol-function of the unrepaired code answered
+   "undefined" on every qualified name (mask 28) *)
+Theorem original_fboundp_qualified_refuted :
+  let ops := [XB (ODefun 2%N 1)] in
+  xguard_prefix PK NM (sinit 0%N) ops = 1%nat /\
+  sq_fun (fold_left sxstep ops (sinit 0%N)) 1%N 0%N 2%N true = QVal 1 /\
+  res_mask (sq_fun (fold_left sxstep ops (sinit 0%N)) 1%N 0%N 2%N true) = 31%N /\
+  res_mask_orig true (q_fun (fold_left xstep ops (init 0%N)) 1%N 0%N 2%N true) = 28%N.
+Proof. vm_compute. repeat split. Qed.
